@@ -339,11 +339,11 @@ CHECKS = {
             "level_text": "Generated (operation, exit path, side-action schedule) histories; invariants: at every page read and callback inside the call the shared range is read-locked by this process, every page read lies between lock and unlock, nothing of ours stays locked after return (normal, early stop, error, injected page fault, callback panic), a SQLite writer cannot commit during the call and can after it. Side actions: writer commit attempts, handles on another file, a reader in another process (passing and parked), second handles of the same process. Sampled over schedules at pager-call granularity.",
             "level_note": "POSIX locks are invisible to their holder, so the probe is a helper process; the window between the two fcntl calls inside one RLock is not explored; the Windows pager cannot run here. One listed known finding (second handle of the same process on the same file) is matched by history shape.",
         },
-        "rule": ("operation x exit path (normal, stop at k, unknown column/table/index, page fault at read j, panic in callback k) x 0-4 side actions at event positions 0-30, on databases of 1-120 rows with page sizes 512/1024/4096; "
+        "rule": ("operation x exit path (normal, stop at k, unknown column/table/index, page fault at read j, panic in callback k) x 0-4 side actions at event positions 0-30, on databases of 1-120 rows with page sizes 512/1024/4096, optionally with a SQLite writer's open transaction (journal on disk, RESERVED held) or the journal of a crashed transaction present before the call; "
                  "plus database/sql result sets read for k rows then closed / cancelled / drained. Non-trivial = at least one side action ran. Distinct = fingerprint of the spec."),
         "assumptions": ["Linux POSIX record locks; system libsqlite3 (3.40.1) is the writer"],
         "min_nontrivial": {"quick": 150, "thorough": 3000},
-        "required_classes": ["exit:normal", "exit:stop", "exit:error-column", "exit:fault", "exit:panic", "side:commit-attempt", "side:peer-hold", "side:other-file", "side:same-process-read", "op:IndexedSelect-wr", "driver:cancel"],
+        "required_classes": ["exit:normal", "exit:stop", "exit:error-column", "exit:fault", "exit:panic", "side:commit-attempt", "side:peer-hold", "side:other-file", "side:same-process-read", "op:IndexedSelect-wr", "driver:cancel", "writer:open-txn", "writer:hot-journal"],
         "timeout": {"quick": 400, "thorough": 2400},
         "jobs": [
             job("held", "c06", ["TestC06Held"], 220, 4000, 3, 10),
